@@ -69,8 +69,9 @@ BUILTINS = {
     'abs': F([I], I), 'count': F([IS], I), 'sum': F([IS], I), 'reverse': F([IS], IS),
     'head': F([IS], IS), 'tail': F([IS], IS), 'exists': F([IS], B), 'empty': F([IS], B),
     'remove': F([IS, I], IS), 'insert-before': F([IS, I, IS], IS),
+    'position': F([], I), 'last': F([], I), 'data': F([], I),     # read the focus the reference captured
 }
-ARITY = {'remove': 2, 'insert-before': 3}
+ARITY = {'remove': 2, 'insert-before': 3, 'position': 0, 'last': 0, 'data': 0}
 # builtins that work on sequences of any items (function items included)
 POLY = {'count': lambda t: F([t], I), 'reverse': lambda t: F([t], t), 'head': lambda t: F([t], t),
         'tail': lambda t: F([t], t), 'exists': lambda t: F([t], B), 'empty': lambda t: F([t], B)}
@@ -78,7 +79,7 @@ POLY = {'count': lambda t: F([t], I), 'reverse': lambda t: F([t], t), 'head': la
 
 # --------------------------------------------------------------------------- printers
 def is_atomic(e) -> bool:
-    return e[0] in ('lit', 'dlit', 'elit', 'var', 'dot', 'tt', 'ff', 'emp', 'par')
+    return e[0] in ('lit', 'dlit', 'elit', 'var', 'dot', 'pos', 'last', 'tt', 'ff', 'emp', 'par')
 
 
 def xp(e) -> str:
@@ -103,6 +104,10 @@ def xp(e) -> str:
         return f'$v{e[1]}'
     if k == 'dot':
         return '.'
+    if k == 'pos':
+        return 'position()'
+    if k == 'last':
+        return 'last()'
     if k in ('add', 'sub', 'mul', 'gt', 'eq'):
         op = {'add': '+', 'sub': '-', 'mul': '*', 'gt': 'gt', 'eq': 'eq'}[k]
         return f'{wrap(e[1])} {op} {wrap(e[2])}'
@@ -169,7 +174,7 @@ def proto(e) -> str:
             out.extend([k, str(e[1])])
         elif k == 'inst':
             out.extend(['inst', e[1]]); go(e[2])
-        elif k in ('tt', 'ff', 'emp', 'dot'):
+        elif k in ('tt', 'ff', 'emp', 'dot', 'pos', 'last'):
             out.append(k)
         elif k in ('add', 'sub', 'mul', 'gt', 'eq', 'cat', 'smap', 'forEach', 'filter', 'sortK'):
             out.append(k); go(e[1]); go(e[2])
@@ -392,6 +397,8 @@ class Gen:
         if t == I:
             if sc.get('dot') == I and r.random() < 0.5:
                 return ('dot',)
+            if sc.get('dot') is not None and not sc.get('infn') and r.random() < 0.15:
+                return (r.choice(['pos', 'last']),)
             if self.noise and sc.get('infn') and r.random() < self.noise:
                 self.tags.add('noise:focus')      # `.` in a function body: focus absent (F16f)
                 return ('dot',)
@@ -573,6 +580,20 @@ class Gen:
                 f = self.gen(t, sc, d - 1)
                 self.tags.add('partial')
                 return ('call', f, [None] * len(args))
+        if not args and subtype(I, ret) and sc.get('dot') is not None and not sc.get('infn') and r.random() < 0.35:
+            # reference to a focus-dependent function: captures the focus of this place
+            self.tags.add('focusref')
+            return ('named', r.choice(['position', 'last'] + (['data', 'data'] if sc.get('dot') == I else [])),
+                    r.random() < 0.3)
+        if len(args) == 1 and subtype(args[0], IS) and subtype(IS, ret) and d > 0 \
+                and r.random() < 0.2:
+            # static partial application with fixed arguments taken from the scope / the focus:
+            # insert-before(?, P, X) / remove(?, P)
+            self.tags.add('spart-nonliteral')
+            pe = self.gen(I, sc, 1)
+            if r.random() < 0.5:
+                return ('spart', 'remove', [None, pe])
+            return ('spart', 'insert-before', [None, pe, self.gen(r.choice([I, IS]), sc, 1)])
         if len(args) in (2, 3) and r.random() < 0.2:
             for name in ('remove', 'insert-before'):
                 if subtype(BUILTINS[name], t):
@@ -687,7 +708,48 @@ class Gen:
                 ft = F([I] * arity, IS)
         fexpr = ('fn', 0, ps, body)
         how = r.random()
-        if how < 0.55:
+        if how > 0.88:
+            # static partial applications whose fixed arguments read the focus / the loop variable
+            arity, ft = 1, F([I], IS)
+
+            def fixed_i(inloop):
+                c = ['dot', 'pos', 'last'] if not inloop else ['var']
+                k = r.choice(c + ['lit'])
+                return ('var', i) if k == 'var' else (self.lit() if k == 'lit' else (k,))
+
+            def sp(inloop):
+                if r.random() < 0.4:
+                    return ('spart', 'remove', [None, fixed_i(inloop)])
+                x = fixed_i(inloop)
+                if r.random() < 0.4:
+                    x = ('cat', x, fixed_i(inloop))
+                return ('spart', 'insert-before', [None, fixed_i(inloop), x])
+            u = r.random()
+            if u < 0.45:
+                makers = ('smap', xs, sp(False))
+            elif u < 0.8:
+                makers = ('for', i, xs, sp(True))
+            else:
+                makers = ('cat', ('smap', xs, sp(False)), ('for', i, xs, sp(True)))
+            self.tags.add('spart-history')
+        elif arity == 0 and how < 0.45:
+            # references to focus-dependent functions created under different foci: `xs ! f#0`
+            ft = F([], I)
+            xs2 = xs
+            if r.random() < 0.3:
+                xs2 = ('call', ('named', 'reverse'), [xs])
+            f0 = lambda: ('named', r.choice(['position', 'last', 'data', 'data']), r.random() < 0.3)   # noqa: E731
+            u = r.random()
+            if u < 0.5:
+                makers = ('smap', xs2, f0())
+            elif u < 0.7:
+                makers = ('smap', xs2, ('cat', f0(), f0()))
+            elif u < 0.85:
+                makers = ('smap', xs2, ('let', self.fresh(sc0, avoid=[i]), ('dot',), f0()))
+            else:
+                makers = ('cat', ('smap', xs2, f0()), ('for', i, xs, f0()))
+            self.tags.add('focusref-history')
+        elif how < 0.55:
             makers = ('for', i, xs, fexpr)
         elif how < 0.75:
             makers = ('forEach', xs, ('fn', 0, [i], fexpr))
@@ -1107,6 +1169,16 @@ CORPUS = [
     # an empty left operand ends an arithmetic expression before the right operand is evaluated
     ('add', ('emp',), ('sub', ('dot',), ('tt',))),
     ('mul', ('emp',), ('call', L(1), [L(2)])),
+    # seeded change: the item of a named reference stored on the `#` token (focus re-targeted)
+    ('smap', ('par', ('smap', seq(L(5), L(6), L(7)), ('named', 'data'))), ('call', ('dot',), [])),
+    ('smap', ('call', ('named', 'reverse'), [('smap', seq(L(5), L(6), L(7)), ('cat', ('named', 'position'), ('named', 'last')))]),
+     ('call', ('dot',), [])),
+    ('let', 0, ('smap', seq(L(8), L(9)), ('named', 'data', True)),
+     seq(('forEach', V(0), fn([1], ('call', V(1), []))), ('for', 2, V(0), ('call', V(2), [])), ('call', ('named', 'position'), []))),
+    # F16n: a partial application written in the expression binds its fixed arguments when it is evaluated
+    ('for', 0, ('par', ('smap', seq(L(1), L(2)), ('spart', 'insert-before', [None, L(1), ('dot',)]))), ('call', V(0), [L(7)])),
+    ('smap', ('par', ('for', 0, seq(L(1), L(2)), ('spart', 'insert-before', [None, L(1), V(0)]))), ('call', ('dot',), [L(7)])),
+    ('for', 0, ('par', ('smap', seq(L(1), L(2), L(3)), ('spart', 'remove', [None, ('pos',)]))), ('call', V(0), [seq(L(10), L(20), L(30))])),
     # F16h: predicate result as a one-item sequence
     ('filter', seq(L(1), L(2), L(3)), fn([0], ('let', 1, V(0), ('gt', V(1), L(1))))),
     # arity
@@ -1218,7 +1290,7 @@ def subterms(e):
     """candidate replacements for shrinking: e replaced by one of its children (type-unsafe candidates are
     filtered by re-running)"""
     k = e[0]
-    if k in ('lit', 'dlit', 'elit', 'var', 'named', 'tt', 'ff', 'emp', 'dot'):
+    if k in ('lit', 'dlit', 'elit', 'var', 'named', 'tt', 'ff', 'emp', 'dot', 'pos', 'last'):
         return
     if k == 'inst':
         yield e[2]
